@@ -113,16 +113,27 @@ func (p *RawParams) AddUpload(upload Upload, key, path string) *gqlerror.Error {
 			return gqlerror.Errorf("path is missing \"variables.\" prefix, key: %s, path: %s", key, path)
 		}
 		if index, parseNbrErr := strconv.Atoi(p); parseNbrErr == nil {
+			list, ok := ptr.([]any)
+			if !ok || index < 0 || index >= len(list) {
+				return gqlerror.Errorf("invalid operations path for key %s: %s does not address a list element", key, path)
+			}
 			if last {
-				ptr.([]any)[index] = upload
+				list[index] = upload
 			} else {
-				ptr = ptr.([]any)[index]
+				ptr = list[index]
 			}
 		} else {
+			object, ok := ptr.(map[string]any)
+			if !ok {
+				return gqlerror.Errorf("invalid operations path for key %s: %s does not address an object field", key, path)
+			}
 			if last {
-				ptr.(map[string]any)[p] = upload
+				if object == nil {
+					return gqlerror.Errorf("path is missing \"variables.\" prefix, key: %s, path: %s", key, path)
+				}
+				object[p] = upload
 			} else {
-				ptr = ptr.(map[string]any)[p]
+				ptr = object[p]
 			}
 		}
 	}
